@@ -26,10 +26,13 @@ import (
 	"net"
 	"net/http"
 	"os"
+	"sort"
 	"strconv"
 	"strings"
 	"sync"
 	"time"
+
+	"wsverif/wire"
 )
 
 // ---- test CA ---------------------------------------------------------------
@@ -166,6 +169,9 @@ type dialRun struct {
 	keyIDs    *keyTable
 	loopConns []net.Conn
 	prevKey   string
+	replyLen  int // bytes of the scripted reply to the opening handshake (0: none was sent)
+	replyHdr  int // ... of which header block
+	nsegs     int // number of transport writes the reply was handed over in
 }
 
 type keyTable struct {
@@ -387,6 +393,83 @@ type DReply struct {
 	Hex    string      `json:"hex"`   // raw: bytes of the reply; "@ACCEPT@" is replaced by the right digest
 	Cut    int         `json:"cut"`   // >= 0: send only the first Cut bytes, then close
 	Tail   string      `json:"tail"`  // hex bytes sent right after a std reply
+	// Segmentation of the reply on the transport: the reply (header block,
+	// body, tail) is handed to the connection in len(Segs)+1 separate writes
+	// cut at the offsets Segs (relative to the end of the header block, may
+	// be negative; absolute offsets when SegAbs).  The in-memory pipe
+	// preserves write boundaries, so one transport Read of the client returns
+	// bytes of at most one segment.
+	Segs   []int    `json:"segs"`
+	SegAbs bool     `json:"segabs"`
+	TailFr []TFrame `json:"tailfr"` // frames glued to a std reply (client side of the handshake boundary, C17)
+}
+
+// TFrame is one unmasked server-to-client frame glued to the 101 response.
+type TFrame struct {
+	Op  int  `json:"op"`
+	Fin bool `json:"fin"`
+	Len int  `json:"len"`
+}
+
+// tailStream renders the frames with deterministic payloads of identity
+// (seed, 9000+100*dial+j) and returns the bytes together with the data
+// messages they carry (type, payload), in order.
+func tailStream(seed uint64, dial int, fs []TFrame) (stream []byte, types []int, msgs [][]byte) {
+	var cur []byte
+	curType := 0
+	for j, f := range fs {
+		var pay []byte
+		if f.Op == 1 || (f.Op == 0 && curType == 1) {
+			pay = wire.TextPay(seed, 9000+100*dial+j, f.Len)
+		} else {
+			pay = wire.Pay(seed, 9000+100*dial+j, f.Len)
+		}
+		stream = append(stream, wire.Encode(wire.Frame{Op: f.Op, Fin: f.Fin, Payload: pay})...)
+		if f.Op >= 8 {
+			continue
+		}
+		if f.Op != 0 {
+			curType, cur = f.Op, nil
+		}
+		cur = append(cur, pay...)
+		if f.Fin {
+			types = append(types, curType)
+			msgs = append(msgs, append([]byte{}, cur...))
+			curType, cur = 0, nil
+		}
+	}
+	return
+}
+
+// segments cuts out at the given offsets (see DReply.Segs).
+func segments(out []byte, hdrLen int, segs []int, abs bool) [][]byte {
+	cuts := []int{}
+	for _, s := range segs {
+		k := s
+		if !abs {
+			k = hdrLen + s
+		}
+		if k <= 0 || k >= len(out) {
+			continue
+		}
+		dup := false
+		for _, c := range cuts {
+			if c == k {
+				dup = true
+			}
+		}
+		if !dup {
+			cuts = append(cuts, k)
+		}
+	}
+	sort.Ints(cuts)
+	parts := [][]byte{}
+	prev := 0
+	for _, k := range cuts {
+		parts = append(parts, out[prev:k])
+		prev = k
+	}
+	return append(parts, out[prev:])
 }
 
 // DCReply describes the proxy's answer to CONNECT / the SOCKS5 request.
@@ -414,6 +497,7 @@ type peerCfg struct {
 	hdrs      []DHdr
 	jarCookie string
 	body      []byte
+	tail      []byte // rendered TailFr
 }
 
 type bufConn struct {
@@ -759,6 +843,7 @@ func serveGet(run *dialRun, ci int, c net.Conn, br *bufio.Reader, pc *peerCfg, d
 
 	rp := pc.reply
 	var out []byte
+	hdrLen := 0
 	switch rp.Mode {
 	case "none":
 		c.Close()
@@ -820,10 +905,17 @@ func serveGet(run *dialRun, ci int, c net.Conn, br *bufio.Reader, pc *peerCfg, d
 			fmt.Fprintf(&sb, "Content-Length: %d\r\n", rp.BLen)
 		}
 		sb.WriteString("\r\n")
+		hdrLen = sb.Len()
 		out = append([]byte(sb.String()), pc.body[:rp.BLen]...)
 		if rp.Tail != "" {
 			t, _ := hex.DecodeString(rp.Tail)
 			out = append(out, t...)
+		}
+		out = append(out, pc.tail...)
+	}
+	if rp.Mode == "raw" {
+		if i := bytes.Index(out, []byte("\r\n\r\n")); i >= 0 {
+			hdrLen = i + 4
 		}
 	}
 	if rp.Cut >= 0 && rp.Cut < len(out) {
@@ -831,10 +923,27 @@ func serveGet(run *dialRun, ci int, c net.Conn, br *bufio.Reader, pc *peerCfg, d
 		c.Close()
 		return
 	}
-	c.Write(out)
+	parts := segments(out, hdrLen, rp.Segs, rp.SegAbs)
+	run.mu.Lock()
+	run.replyLen, run.replyHdr, run.nsegs = len(out), hdrLen, len(parts)
+	run.mu.Unlock()
+	for _, part := range parts {
+		if _, err := c.Write(part); err != nil {
+			break
+		}
+	}
 	if rp.Mode == "raw" || (rp.Mode == "std" && (rp.BLen > 0 || !rp.CL) && rp.Status != 101) {
 		// a server that has said everything closes (ends bodies delimited by EOF)
 		c.Close()
+		return
+	}
+	if len(pc.tail) > 0 {
+		// the server has sent its frames and will send nothing more: half-close, so
+		// that the client reads end-of-stream after the glued frames (its own
+		// writes, e.g. a pong, still succeed)
+		if cw, ok := c.(interface{ CloseWrite() error }); ok {
+			cw.CloseWrite()
+		}
 	}
 }
 
